@@ -126,11 +126,15 @@ fn gen_mono_ns(t: &mut Tape) -> i64 {
 }
 
 fn gen_dur(t: &mut Tape) -> Duration {
-    match t.choose(4) {
+    match t.choose(6) {
         0 => Duration::from_nanos(t.range(0, 2000)),
         1 => Duration::from_micros(t.u32_biased() as u64),
         2 => Duration::new(t.range(0, 1_000_000_000), t.range(0, 999_999_999) as u32),
-        _ => Duration::from_secs(t.range(0, 100)),
+        3 => Duration::from_secs(t.range(0, 100)),
+        // beyond what fits in i64 microseconds (the storage range) yet far inside the range of the platform clocks
+        // (i64 seconds): around the i64-microsecond boundary, and anywhere up to 4e18 s
+        4 => Duration::new(9_223_372_036_854 + t.range(0, 3), t.range(0, 999_999_999) as u32),
+        _ => Duration::new(t.range(9_223_372_036_855, 4_000_000_000_000_000_000), t.range(0, 999_999_999) as u32),
     }
 }
 
